@@ -172,6 +172,8 @@ def extract(tier="quick", configs=None, extra_units=None, jobs=16, drivers=None)
     if len(outs) > 40:
         pack = os.path.join(cdir, "pack_" + hashlib.sha1("|".join(o for _, o in outs).encode()).hexdigest()[:16] + ".marshal")
     F = facts.load(outs, pack=pack)
+    if os.environ.get("DSA_NO_INLINE") != "1":
+        facts.inline_single_use_helpers(F)
     info = {
         "units_parsed": len(outs),
         "units_extracted_now": len(todo),
@@ -179,6 +181,7 @@ def extract(tier="quick", configs=None, extra_units=None, jobs=16, drivers=None)
         "extract_s": round(time.time() - t0, 2),
         "unit_list": [l for l, _ in outs],
         "functions": len(F.fns),
+        "inlined_single_use_helpers": getattr(F, "inlined", []),
     }
     _prune_cache(os.path.join(OUT, "cache"), keep=key)
     return F, info
